@@ -245,7 +245,7 @@ func finishEvidence() {
 	run.AddEvals(run.Trans + bst.searchCmds + bst.fetchCmds + bst.listCmds + bst.miscCmds)
 	run.NontrivialN(run.States + bst.searchNonEmpty + bst.fetchCompared)
 	run.Exhaustive = true
-	run.Rule = "A: BFS over histories of a fresh imapserver+imapmemserver per transition (replay + 1 command), two sessions, one command at a time; per scenario: fixed seed prefix + every sequence of <= depth commands of the scenario alphabet (extending commands; leaf-only commands are executed and judged at every state but not extended); dedup on the canonical reference-model state incl. per-session selected mailbox, view and undelivered updates; after every step a fresh probe connection compares LIST/LSUB/LIST(SUBSCRIBED)/LIST-STATUS, and per name STATUS(6 items)/UID FETCH 1:* (UID FLAGS INTERNALDATE RFC822.SIZE)/UID SEARCH ALL/SEARCH ALL with the model. B: SEARCH: every leaf key, NOT k, NOT NOT k, (k), every ordered pair (AND) and OR k k' [+ NOT (k k'), NOT OR, OR NOT, cubic forms over a class-representative subset] x {SEARCH, UID SEARCH} x {plain, RETURN (MIN MAX COUNT ALL)} on 3 mailboxes against refmodel.Match; FETCH: 10 part paths x 6 specifiers x PEEK x (no partial + 7 offsets x 4 sizes) per corpus message against a hand-written section table; LIST: pattern family x 4 references x {LIST, LSUB, LIST (SUBSCRIBED)}; BODYSTRUCTURE/ENVELOPE/macros/STATUS items: framing clause only"
+	run.Rule = "A: BFS over histories of a fresh imapserver+imapmemserver per transition (replay + 1 command), two sessions, one command at a time; per scenario: fixed seed prefix + every sequence of <= depth commands of the scenario alphabet (extending commands; leaf-only commands are executed and judged at every state but not extended); dedup on the canonical reference-model state incl. per-session selected mailbox, view and undelivered updates; after every step a fresh probe connection compares LIST/LSUB/LIST(SUBSCRIBED)/LIST-STATUS, and per name STATUS(6 items)/UID FETCH 1:* (UID FLAGS INTERNALDATE RFC822.SIZE)/UID SEARCH ALL/SEARCH ALL with the model. B: SEARCH: every leaf key, NOT k, NOT NOT k, (k), every ordered pair (AND) and OR k k' [+ NOT (k k'), NOT OR, OR NOT, cubic forms over a class-representative subset] x {SEARCH, UID SEARCH} x {plain, RETURN (MIN MAX COUNT ALL)} on 3 mailboxes against refmodel.Match; the life cycle of the saved search result '$' (empty after SELECT, set by SAVE incl. to the empty set, set again after a refused SAVE, shrunk by EXPUNGE, reset by SELECT) read back through UID SEARCH $, UID SEARCH UID $ and UID FETCH $; FETCH: 10 part paths x 6 specifiers x PEEK x (no partial + 7 offsets x 4 sizes) per corpus message against a hand-written section table; LIST: pattern family x 4 references x {LIST, LSUB, LIST (SUBSCRIBED)}; BODYSTRUCTURE/ENVELOPE/macros/STATUS items: framing clause only"
 	for _, a := range []string{
 		"flat namespace: names are opaque keys; RENAME/DELETE of a name that has inferiors ('A' while 'A/x' exists), RENAME INBOX, DELETE INBOX and RENAME A A/x are outside the alphabet (the statement does not promise hierarchy semantics)",
 		"free values are adopted, not predicted: UIDVALIDITY, UIDs of new messages, UIDNEXT — after checking: new UID > every UID ever assigned in the mailbox, UIDNEXT > every UID and never decreasing, UIDVALIDITY constant for a mailbox object and different from every earlier, different mailbox of the same name",
